@@ -38,15 +38,21 @@ func c12Pool() []*poolTable {
 	// different block indices
 	// the fifth has a composite key whose columns are not in column order
 	t5 := [][]string{{"x1", "p"}, {"x2", "q"}, {"x0", "q"}}
-	for ti, rows := range [][][]string{t1, t2, t3, t1, t5} {
+	// the sixth has the rows and key of the first under another column name: same blocks AND block
+	// indices, another table object
+	for ti, rows := range [][][]string{t1, t2, t3, t1, t5, t1} {
 		pk := []int{0}
+		cols := []string{"k", "v"}
+		if ti == 5 {
+			cols = []string{"k", "w"}
+		}
 		if ti == 3 {
 			pk = []int{0, 1}
 		}
 		if ti == 4 {
 			pk = []int{1, 0}
 		}
-		st := storeTable([]string{"k", "v"}, pk, rows)
+		st := storeTable(cols, pk, rows)
 		pt := &poolTable{st: st}
 		pt.keys = append(pt.keys, "tbl/"+string(st.sum), "tblidx/"+string(st.sum), "tblsum/"+string(st.sum))
 		for i := range st.tbl.Blocks {
